@@ -501,6 +501,9 @@ class MP4Tags(DictProxy, Tags):
         for atom in path:
             fileobj.seek(atom.offset)
             size = cdata.uint_be(fileobj.read(4))
+            if size == 0:
+                # extends to the end of the file, nothing to update
+                continue
             if size == 1:  # 64bit
                 # skip name (4B) and read size (8B)
                 size = cdata.ulonglong_be(fileobj.read(12)[4:])
